@@ -51,6 +51,7 @@ def main(ck):
         ck.audit("QmcProps.C19", ["Qmc.C19." + t for t in THEOREMS])
     if ck.cargo_build(BINS):
         for mode, name in [
+            ("helpers", "remove-doubles-helper"),
             ("traj", "trajectories"),
             ("thr", "acceptance-thresholds"),
             ("imp", "importance-table"),
